@@ -91,7 +91,9 @@ impl SlidingLogState {
             limit_for_period,
             window_duration,
             timeout_duration,
-            request_log: VecDeque::with_capacity(limit_for_period),
+            // the log grows as needed; reserving room for a very large limit up front
+            // overflows the capacity computation (limit usize::MAX) or wastes memory
+            request_log: VecDeque::with_capacity(limit_for_period.min(1024)),
         }
     }
 
